@@ -9,7 +9,7 @@ use crate::refsyn;
 use crate::report::{Ctx, Spec, Stats};
 use crate::tt::Tt;
 use crate::util::{self, guarded, mix, Rng};
-use rsbdd::bdd::BDDEnv;
+use rsbdd::bdd::{BDDEnv, BDD};
 use rsbdd::TruthTableEntry;
 use serde_json::{json, Value};
 use std::rc::Rc;
@@ -145,6 +145,76 @@ fn random_job(ctx: &Ctx, job: usize, iters: u64) -> Stats {
 }
 
 /// `rsbdd -e <formula> -c t|f -t` : table of the retained diagram vs the reference implication
+/// Diagrams with MANY PATHS (a parity of 16-21 variables has 2^16 .. 2^21 paths through some 40
+/// nodes) around a part with forced and unforced choices: f = r ? parity(x..) : g(p, q, ..). The
+/// direction is judged on sampled assignments, the kept / dropped choices of the small part exactly.
+fn many_paths_case(st: &mut Stats, nvars: usize, shape: usize, seed: u64) {
+    let mut rng = Rng::stream(seed, "C20.manypaths", (nvars * 10 + shape) as u64);
+    let env: BDDEnv<usize> = BDDEnv::new();
+    // labels: r = 0 on top, x_i = 1..=nvars, then p, q, s below
+    let (p, q, s) = (nvars + 1, nvars + 2, nvars + 3);
+    let mut parity = env.mk_const(false);
+    for i in (1..=nvars).rev() {
+        parity = env.xor(env.var(i), parity);
+    }
+    let small = match shape {
+        0 => env.or(env.var(p), env.var(q)),
+        1 => env.and(env.var(p), env.or(env.var(q), env.var(s))),
+        2 => env.or(env.var(p), env.and(env.var(q), env.var(s))),
+        _ => env.ite(env.var(p), env.var(q), env.not(env.var(s))),
+    };
+    let f = match shape % 2 {
+        0 => env.ite(env.var(0), Rc::clone(&parity), Rc::clone(&small)),
+        _ => env.ite(env.var(0), Rc::clone(&small), Rc::clone(&parity)),
+    };
+    let eval = |d: &D, asg: &dyn Fn(usize) -> bool| -> bool {
+        let mut cur = Rc::clone(d);
+        loop {
+            let next = match cur.as_ref() {
+                BDD::True => return true,
+                BDD::False => return false,
+                BDD::Choice(t, l, e) => if asg(*l) { Rc::clone(t) } else { Rc::clone(e) },
+            };
+            cur = next;
+        }
+    };
+    for (fname, filter) in [("True", TruthTableEntry::True), ("False", TruthTableEntry::False)] {
+        st.evals += 1;
+        let case = json!({"kind": "many-paths", "nvars": nvars, "shape": shape, "seed": seed});
+        util::budget(u64::MAX, 1000);
+        let r = match guarded(|| env.retain_choice_bottom_up(Rc::clone(&f), filter)) {
+            Ok(r) => r,
+            Err(c) => {
+                st.violate("c20.panic", format!("C20:many-paths:{}", c.signature()), format!("{:?}", c), case);
+                continue;
+            }
+        };
+        let mut bad = None;
+        for k in 0..4000u64 {
+            let bits = mix(seed ^ k, 0x20_2020);
+            // half of the samples on the side of the small part, with every combination of p, q, s
+            let asg = |l: usize| -> bool {
+                if l == 0 { (k % 2 == 0) == (shape % 2 == 1) } else if l == p { (k >> 1) & 1 == 1 } else if l == q { (k >> 2) & 1 == 1 } else if l == s { (k >> 3) & 1 == 1 } else { (bits >> (l % 60)) & 1 == 1 }
+            };
+            let (fv, rv) = (eval(&f, &asg), eval(&r, &asg));
+            let ok = if fname == "True" { !fv || rv } else { !rv || fv };
+            if !ok {
+                bad = Some(format!("r={} p={} q={} s={} (x sampled): f is {}, the result is {}", asg(0) as u8, asg(p) as u8, asg(q) as u8, asg(s) as u8, fv, rv));
+                break;
+            }
+        }
+        match bad {
+            Some(m) => st.violate("c20.direction", format!("C20:{}:{}", fname, if fname == "True" { "loses-a-model" } else { "gains-a-model" }), format!("f = r ? parity of {} variables : small part (shape {}), filter {}: under {} — the result {} f", nvars, shape, fname, m, if fname == "True" { "is not implied by" } else { "does not imply" }), case),
+            None => {
+                st.bump("many_path_diagrams_retained");
+                st.max("max_paths_log2", nvars as u64);
+                st.nt.insert(mix(0x20_77, (nvars * 100 + shape * 2) as u64 + (fname == "True") as u64));
+                let _ = rng.next();
+            }
+        }
+    }
+}
+
 fn cli_case(ctx: &Ctx, st: &mut Stats, text: &str) {
     let Ok(ast) = refsyn::parse_text(text) else { return };
     let Ok((names, want)) = refsem::eval_formula(&ast) else { return };
@@ -312,6 +382,10 @@ pub fn run(ctx: &Ctx) -> (Stats, Spec) {
     for t in ["a & (b | c)", "a | (b & c)", "-a & (b ^ c)", "a => (b & c & d)", "(a | b) & (c | d)", "true", "false", "a"] {
         cli_case(ctx, &mut st, t);
     }
+    // diagrams with 2^16 .. 2^21 paths (the walk is per path: about a second for 2^21)
+    let mp: Vec<(usize, usize)> = ctx.tier.pick(vec![(16, 0), (18, 1), (20, 2), (21, 3), (21, 0)], vec![(16, 0), (17, 3), (18, 1), (19, 2), (20, 2), (20, 1), (21, 3), (21, 0), (22, 1), (22, 2)]);
+    let parts = with_stderr_gagged(|| util::par_jobs(mp.len(), |j| { let mut s = Stats::new(); many_paths_case(&mut s, mp[j].0, mp[j].1, ctx.seed); s }));
+    st.merge(crate::report::merge_all(parts));
     let wk_iters = ctx.tier.pick(3_000u64, 60_000u64);
     let parts = with_stderr_gagged(|| util::par_jobs(16, |job| super::weak::weak_hash_job(ctx, "C20", job, wk_iters)));
     st.merge(crate::report::merge_all(parts));
@@ -336,6 +410,11 @@ pub fn run(ctx: &Ctx) -> (Stats, Spec) {
 }
 
 pub fn replay(ctx: &Ctx, _monitor: &str, case: &Value, st: &mut Stats) {
+    if case.get("kind").and_then(|k| k.as_str()) == Some("many-paths") {
+        let g = |k: &str| case.get(k).and_then(|j| j.as_u64()).unwrap_or(0);
+        many_paths_case(st, g("nvars").clamp(4, 22) as usize, g("shape") as usize, g("seed"));
+        return;
+    }
     if case.get("kind").and_then(|k| k.as_str()) == Some("wide") {
         super::wide::replay_wide(ctx, "C20", case, st);
         return;
